@@ -1041,7 +1041,7 @@ func runC17(c *Ctx) {
 				c.Corr(map[string]interface{}{"op": "tracecheck_mt", "initial": []string{}, "events": wireEvents(ev, true, tids)}, "ok", "exact", cs)
 				// replay under the observed schedule
 				per := make([][]tev, n)
-				var sched []int
+				sched := []int{}
 				var asked []string
 				for _, e := range ev {
 					i := tids[e.G]
